@@ -99,6 +99,13 @@ class Engine:
                 self.assumptions.append(v <= hi)
         return Q(S.Lin.var(name, self.vars[name]))
 
+    def pyreal(self, name, lo=None):
+        """a symbolic number with Python-scalar semantics (x / 0 raises ZeroDivisionError)"""
+        q = self.real(name, lo=lo)
+        if self.concrete is not None:
+            return float(q)
+        return S.PyReal.of(q)
+
     def intcount(self, name, lo=0):
         """integer-valued real input (head counts)"""
         if self.concrete is not None:
@@ -442,6 +449,8 @@ class Evaluator:
             b = x.view(np.ndarray)
             for idx in np.ndindex(b.shape):
                 out[idx] = self.value(b[idx])
+            if any(e is None for e in out.flat):
+                return out
             try:
                 return out.astype(float)
             except (TypeError, ValueError):
